@@ -63,6 +63,21 @@ CANONICAL = [
 ]
 
 
+# a frame the collector evicted is then removed by the user: that remove is acknowledged although it finds nothing to
+# delete - whatever made the frame disappear has to be as durable as the acknowledgement (seeded change C04-c)
+COLLECTED = [
+    {"op": "append", "id": 1, "f": {"topic": "tB", "ctx": 0, "ttl": "head:1", "meta": "m", "hash": "none"}},
+    {"op": "append", "id": 2, "f": {"topic": "tB", "ctx": 0, "ttl": "head:1", "meta": "m", "hash": "h1"}},
+    {"op": "gc", "id": 1},
+    {"op": "remove", "id": 1},
+    {"op": "append", "id": 5, "f": {"topic": "tA", "ctx": 0, "ttl": "head:1", "meta": "m", "hash": "none"}},
+    {"op": "append", "id": 6, "f": {"topic": "tA", "ctx": 0, "ttl": "forever", "meta": "mBig", "hash": "none"}},
+    {"op": "gc", "id": 5},
+    {"op": "remove", "id": 5},
+    {"op": "append", "id": 9, "f": {"topic": "tB", "ctx": 0, "ttl": "forever", "meta": "m", "hash": "none"}},
+]
+
+
 # ------------------------------------------------------------------------------ concretisation
 def scru128(ts, hi=0, lo=0, ent=0):
     v = (ts << 80) | (hi << 56) | (lo << 32) | ent
@@ -648,7 +663,7 @@ def _run(tier, seed):
     d = scratch("dur")
     try:
         rng = random.Random(seed)
-        lists = [("canonical", CANONICAL)]
+        lists = [("canonical", CANONICAL), ("collected", COLLECTED)]
         lists += [("tlc", o) for o in gen_tlc(cfg["tlc_runs"], seed + 1)] if cfg["tlc_runs"] else []
         lists += [("random", gen_random(rng, cfg["ops"])) for _ in range(cfg["rnd_runs"])]
         runs = [Run(b, o, seed) for b, (_, o) in enumerate(lists)]
